@@ -83,7 +83,14 @@ def check_tdvp(case, rec):
     require(np.linalg.norm(vs - sgn * v1) <= 1e-10, 'evolved state depends on the norm of the input (integrator does not evolve the normalised input)',
             diff=float(np.linalg.norm(vs - sgn * v1)))
     if case['second_call']:
-        one_call('second call', E1, psi.bond_dims, 1.0)
+        expect = 1.0
+        if case.get('edit_between'):
+            # user-style edit between the calls: the second call must see the current tensors (norm 2)
+            k = case['psi']['seed'] % L
+            psi.A[k] = 2.0 * psi.A[k]
+            expect = 2.0
+            rec.label('edit_between_calls')
+        one_call('second call', E1, psi.bond_dims, expect)
         rec.label('second_call')
     rec.label('model_' + (case['ham'].get('model') or 'random'), 'integrator_' + kind, 'iters=%d' % iters, 'L=%d' % L)
     rec.nontrivial = bool(L >= 2 and max(D_in) >= 2 and nH * abs(tau) * steps > 1e-2 and var0 > 1e-6)
@@ -99,6 +106,7 @@ def gen_tdvp(draw, tier):
     c['iters'] = draw(st.sampled_from([3, 1, 2, 4, 5, 6, 8]))
     c['scale'] = draw(st.sampled_from([4.0, 0.25, -2.0, 1024.0]))   # powers of two: the scaling is exact in floating point
     c['second_call'] = draw(st.booleans())
+    c['edit_between'] = draw(st.booleans())
     return c
 
 
